@@ -180,16 +180,30 @@ _bounded('C14',
          "advertised facts appear as new proved lines.",
          "No deductive part. Findings repaired: exists_elim dropping subproofs of later lines; backward steps "
          "suggested up to eta.", '4 C14')
-_bounded('C18',
-         "Bounded stand-in (not a proof): for every veriT rule taking the conclusion clause as arguments, all clauses "
-         "of <= 2 (thorough 3) literals over the components of a principal formula are offered with premises none / "
-         "phi / ~phi; resolution chains, equality chains, rewrite-style rules and Farkas combinations have dedicated "
-         "generators with near misses. Every accepted conclusion must follow (z3, own encoding) from the premises whose "
-         "hypotheses it carries. One leaf function is proved deductively: try_resolve (pivot search of th_resolution) "
-         "returns positions of complementary literals, and None only if there is no complementary pair.",
-         "Deductive part limited to try_resolve (29 obligations). Findings repaired in 16 rule evaluations (connective / "
-         "length checks, hypotheses). Rules with binders and contexts (refl, bind, sko_*, onepoint, forall_inst, qnt_*) "
-         "are not exercised.", '4 C18')
+CHECKS['C18'] = dict(
+    category='proof',
+    text="Deductive (all argument lists, all premises): the evaluation of 34 propositional veriT rules is proved "
+         "sound - whenever `eval` returns, the returned clause is true under every valuation of its atoms that makes "
+         "the premise true (tautology rules: under every valuation) and carries exactly the premise's hypotheses. "
+         "Rules: not_not, implies, implies_pos, implies_neg1/2, false, equiv_pos1/2, equiv_neg1/2, equiv1/2, "
+         "not_equiv1/2, ite_pos1/2, ite_neg1/2, ite1/2, not_ite1/2, xor_pos1/2, xor_neg1/2, not_implies1/2, and, "
+         "or, or_neg, or_pos, not_or, eq_reflexive (quick tier), not_and (thorough tier). Under contract too: "
+         "kernel.term.Or / And (right-nested connective of any number of arguments, loop invariants), "
+         "Term.strip_disj / strip_conj (functional contracts), strip_disj_n, try_resolve. Semantics = spec function "
+         "`pv` (conj, disj, implies, neg, xor, Boolean equality and conditional, true, false; anything else an atom) "
+         "with induction lemmas relating clause lists and nested connectives. Every other rule (~55: resolvent "
+         "construction, equality / congruence, arithmetic, simplification, quantifier rules) is covered by the "
+         "bounded stand-in c18_verit only (z3 oracle on an own encoding) - labelled bounded, not counted as proved.",
+    note="Trusted: pyvc, z3 5.1, /usr/bin/z3 4.8.12 as second back end (unsat answers only); that `pv` is the truth "
+         "value in HOL models is the textbook semantics of the connectives. Pre-condition (A1b made explicit) for the "
+         "rules reading an equality / conditional: the clause and premise are well-typed Boolean terms with the "
+         "connective constants at their declared types. The contracts are also evaluated natively on enumerated "
+         "clauses under all valuations (c18_contracts: vacuity and encoding guard). Rules with binders and contexts "
+         "(refl, bind, sko_*, onepoint, forall_inst, qnt_*) are not exercised at all.",
+    technique="contract-based deductive verification of the real rule evaluations (own ast->z3 VC generator, "
+              "semantic post-conditions over a propositional valuation, loop invariants, induction lemmas; z3 5.1 + "
+              "z3 4.8.12) + run-time contracts on the remaining rules over enumerated inputs (bounded stand-in)",
+    design='4 C18')
 _bounded('C06',
          "Bounded stand-in (not a proof): directed and generated goals of the translatable fragment (quantifiers over "
          "nat/int/real/bool in both polarities, truncated subtraction, division, of_nat, functions, sets) given to "
